@@ -419,6 +419,11 @@ impl super::DebugSession {
     }
 
     pub(super) fn handle_continue(&mut self, req: &DapRequest) -> anyhow::Result<()> {
+        // must be checked before the success response is sent, otherwise the request
+        // is answered twice (success, then the error response of the dispatcher)
+        if self.debugger.is_none() {
+            return Err(anyhow!("continue: debugger not initialized"));
+        }
         self.begin_running();
 
         let thread_id = self.current_thread_id();
@@ -428,10 +433,10 @@ impl super::DebugSession {
         });
         self.send_success_body(req, json!({"allThreadsContinued": true}))?;
         self.drain_events()?;
-        let dbg = self
-            .debugger
-            .as_mut()
-            .ok_or_else(|| anyhow!("continue: debugger not initialized"))?;
+        let Some(dbg) = self.debugger.as_mut() else {
+            // checked above, the request is already answered
+            return Ok(());
+        };
         let stop = dbg.continue_debugee_with_reason().context("continue")?;
         self.emit_stop_reason(stop)
     }
